@@ -302,7 +302,7 @@ pub fn run(args: &Args) -> i32 {
                 }
             };
             let cols: Vec<usize> = (0..m.cols.len()).collect();
-            let gen = PredGen::new(m, GenCfg { cols: cols.clone(), focus: (1..m.cols.len()).collect(), max_depth: 2, hostile_literals: true, allow_colcmp: false });
+            let gen = PredGen::new(m, GenCfg { cols: cols.clone(), focus: (1..m.cols.len()).collect(), max_depth: 2, hostile_literals: true, allow_colcmp: false, contains_cols: vec![] });
             for pi in 0..preds_per_table {
                 if !report.time_left() {
                     break;
